@@ -23,7 +23,7 @@ Import ListNotations.
 From DD Require Import Base.PyStr Base.Value Diff.Tree Diff.DiffModel Path.PathModel
   Filter.FilterModel Filter.FilterProofs Filter.FilterExclude Filter.FilterThreshold Filter.FilterInclude
   Filter.FilterWitness Filter.FilterIndep Filter.FilterHash Filter.FilterGuard Filter.FilterExact Filter.FilterWitness2
-  Filter.FilterModelV Filter.FilterV Filter.FilterIndepG.
+  Filter.FilterModelV Filter.FilterV Filter.FilterIndepG Filter.FilterVPath.
 
 (** ** Exclusion: literal (P = membership of the rendered path in exclude_paths) or by regex (P arbitrary) *)
 
@@ -449,3 +449,29 @@ Proof.
   intros. unfold run_filtered. rewrite run_diffx_no_kf. apply exclude_filter_guard; assumption.
 Qed.
 Print Assumptions C13_exclude_options_guarded.
+
+(** ** Round 3: the object-dependent exclusions are path exclusions *)
+
+(** positional mode, set-free well-formed inputs: the run with ANY object-dependent skip test SK (exclude_types,
+    exclude_obj_callback(_strict), ... - whatever _skip_this computes from the level path and the two objects) is the run
+    with the path predicate [trace SK t1 t2 q] = "SK at q and the objects the two inputs hold at position q" *)
+Theorem C13_value_exclusion_is_path_exclusion :
+  forall hatom udiff ops (SK : vskip) (E : path -> bool) (hit : path -> nat -> bool) (c : cfg) (t1 t2 : value),
+  zip c = true -> wf t1 = true -> wf t2 = true -> setfree t1 = true -> setfree t2 = true ->
+  run_diffv hatom udiff ops SK E no_kf hit c t1 t2 = run_diff hatom udiff ops (trace SK t1 t2) E c t1 t2.
+Proof. intros. apply value_exclusion_is_path_exclusion; assumption. Qed.
+Print Assumptions C13_value_exclusion_is_path_exclusion.
+
+(** hence exclude_paths + exclude_regex_paths + exclude_types + exclude_obj_callback(_strict) together act as ONE pure
+    filter - the unrestricted result minus the entries at or below a position excluded by any of them - exactly when the
+    input-level guard holds (always at threshold 0) *)
+Theorem C13_value_exclusion_is_filter :
+  forall hatom udiff ops (rx : path -> bool) (rxh : path -> nat -> bool) (ex : list pystr) (TY : list ty)
+         (cb cbs : value -> bool) (c : cfg) (t1 t2 : value),
+  zip c = true -> wf t1 = true -> wf t2 = true -> setfree t1 = true -> setfree t2 = true ->
+  let SK := skip_full rx (add_root_to_paths ex) [] TY cb cbs None None in
+  (fst (run_full hatom udiff ops rx rxh ex [] TY cb cbs None None c t1 t2) =
+   filter (fun e => not_under (trace SK t1 t2) (ep1 e)) (fst (run_diff hatom udiff ops no_skip no_skip c t1 t2))
+   <-> xguard (trace SK t1 t2) (excl_this (add_root_to_paths ex)) c t1 t2 = true).
+Proof. intros. apply value_exclusion_is_filter; assumption. Qed.
+Print Assumptions C13_value_exclusion_is_filter.
